@@ -153,6 +153,20 @@ int main()
           st.hit("dbgrid_coarse");
           delete dc;
         }
+        {
+          VectorVectorInt limits(nd);
+          VectorInt lo(nd);
+          bool okl = true;
+          for (int i = 0; i < nd; i++) { lo[i] = (int)rng.range(0, nx[i] - 1); int hi = (int)rng.range(lo[i] + 1, nx[i]); limits[i] = {lo[i], hi}; if (hi <= lo[i]) okl = false; }
+          DbGrid* ds = okl ? DbGrid::createSubGrid(db, limits, false) : nullptr;
+          if (ds != nullptr)
+          {
+            const Grid& gs = ds->getGrid();
+            printf("g subg %s %s 0 => %s %s %s\n", G.c_str(), vecI(lo).c_str(), vecI(gs.getNXs()).c_str(), vecD(gs.getDXs()).c_str(), vecD(gs.getX0s()).c_str());
+            st.hit("dbgrid_subgrid");
+            delete ds;
+          }
+        }
         DbGrid* dr = DbGrid::createRefine(db, nm, 1, false);
         if (dr != nullptr)
         {
